@@ -323,6 +323,9 @@ func scenariosOf(pr pairT, thorough bool) []scenT {
 	out = append(out, scenT{Pair: pr, Peer: "stale-and-best", Peers: 2})
 	if pr.B-pr.A > 2*pr.n() && pr.B >= 5 {
 		out = append(out, scenT{Pair: pr, Peer: "tall-low-prevoted-and-best"})
+		if pr.A >= 1 {
+			out = append(out, scenT{Pair: pr, Peer: "aborted-block-sync-then-failed-fast-sync"})
+		}
 	}
 	if pr.A >= 2 && pr.A <= 2*pr.n()-1 && pr.B-pr.A <= 2 {
 		// histories of two failed fast syncs on the same node, the second forking higher than the first
@@ -465,9 +468,92 @@ func runTwoSyncs(r *vlib.Run, fx *pairFixture, sc scenT, report func(key, what s
 	r.Add("fast_sync_scenarios", 1)
 }
 
+// runAbortedThenFailed: a block sync that aborts half-way (the peer stops answering after one block) leaves the node
+// on a shorter chain with its former blocks in the temp table; the node then forges on; a fast sync from another
+// peer fails while applying. The blocks the node had before that fast sync must be back afterwards.
+func runAbortedThenFailed(r *vlib.Run, fx *pairFixture, sc scenT, report func(key, what string, sc scenT)) {
+	vclock.Reset()
+	pr := sc.Pair
+	a, err := node.New(convCfg(pr.n(), true, "node-a"))
+	if err != nil {
+		panic(err)
+	}
+	defer a.Close()
+	replay(a, fx.common)
+	grow(a, pr.A, 1)
+	ha := a.Conn.VerifHost()
+	tipH := pr.P + pr.B
+	// step 1: block sync from a peer that serves one block and then errors
+	sp1 := newScripted(fx.bChain, fx.bNode, "stop-with-error", pr.P+2)
+	c1 := newClient(a.Cfg.ChainID, "peer-1", sp1.handlers())
+	defer c1.Stop()
+	if err := dial(c1.VerifHost(), ha); err != nil {
+		panic("harness: " + err.Error())
+	}
+	if !waitFor(func() bool { return connected(ha, c1.VerifHost().ID()) }) {
+		panic("harness: peer not connected")
+	}
+	err1 := a.Exec.VerifProcess(node.CloneBlock(fx.bChain[tipH]), string(c1.VerifHost().ID()))
+	r.Add("syncs", 1)
+	if err1 == nil || int(a.Tip().Header.Height) != pr.P+1 {
+		r.Add("aborted_block_sync_fixture_not_applicable", 1)
+		return // the download did not stop where the scenario needs it
+	}
+	// the node goes on with two blocks of its own
+	grow(a, 2, 5)
+	origTip := a.Tip().Header
+	origState := stateOf(a)
+	aChain := chainOf(a)
+	// step 2: fast sync from a peer whose chain forks one block below A's tip and starts with an invalid block
+	b2, err := node.New(convCfg(pr.n(), false, ""))
+	if err != nil {
+		panic(err)
+	}
+	defer b2.Close()
+	replay(b2, aChain[1:len(aChain)-1])
+	grow(b2, 3, 6)
+	chain2 := chainOf(b2)
+	sp2 := newScripted(chain2, b2, "bad-state-root", len(aChain)-1)
+	c2 := newClient(a.Cfg.ChainID, "peer-2", sp2.handlers())
+	defer c2.Stop()
+	if err := dial(c2.VerifHost(), ha); err != nil {
+		// the first peer may have been banned together with the shared loopback IP
+		vclock.Set(time.Now().Add(25 * time.Hour))
+		vclock.Tick()
+		vclock.Reset()
+		if err := dial(c2.VerifHost(), ha); err != nil {
+			panic("harness: second peer cannot connect: " + err.Error())
+		}
+	}
+	if !waitFor(func() bool { return connected(ha, c2.VerifHost().ID()) }) {
+		panic("harness: second peer not connected")
+	}
+	err2 := a.Exec.VerifProcess(node.CloneBlock(chain2[len(chain2)-1]), string(c2.VerifHost().ID()))
+	r.Add("syncs", 1)
+	r.Add("transitions", 2)
+	tip := a.Tip().Header
+	if err2 == nil {
+		report("faulty-peer-sync-reports-success:aborted-block-sync-then-failed-fast-sync", "Sync returned no error although the peer's first block is invalid", sc)
+		return
+	}
+	if !bytes.Equal(tip.ID, origTip.ID) {
+		report("fast-sync-not-restored:aborted-block-sync-then-failed-fast-sync", fmt.Sprintf("the fast sync failed (%v) and A's tip is at height %d, not the tip it had before at %d (an earlier block sync had aborted: %v)", err2, tip.Height, origTip.Height, err1), sc)
+		return
+	}
+	if d := node.DiffDumps(origState, stateOf(a)); len(d) > 0 {
+		report("fast-sync-state-not-restored:aborted-block-sync-then-failed-fast-sync", fmt.Sprintf("the tip is restored but the database differs: %v", head(d, 6)), sc)
+		return
+	}
+	r.Add("faulty_rejected", 1)
+}
+
 func runScenario(r *vlib.Run, fx *pairFixture, sc scenT, report func(key, what string, sc scenT)) {
 	if sc.Peer == "two-failed-fast-syncs" {
 		runTwoSyncs(r, fx, sc, report)
+		return
+	}
+	if sc.Peer == "aborted-block-sync-then-failed-fast-sync" {
+		runAbortedThenFailed(r, fx, sc, report)
 		return
 	}
 	vclock.Reset()
